@@ -353,12 +353,15 @@ def compiled(name, key):
     """Native compilation of skeleton `name` for configuration `key` (tuple of 9 bools in PAIRS order)."""
     asyncm = bool(P.get("asyncm"))
     base = P.get("base", "sandbox")
-    ck = (name, key, asyncm, base)
+    ck = (name, key, asyncm, base, bool(P.get("foreign")))
     t = CACHE.get(ck)
     if t is None:
         env = _env_for(key, asyncm, base)
         if SKELS[name][0] is None:
             t = ("expr", env.compile_expression(source(name), undefined_to_none=False))
+        elif P.get("foreign"):
+            # the syntax tree comes from another environment's parser (a plain Environment); the sandbox only compiles it
+            t = ("tpl", env.from_string(_PLAIN.parse(source(name))))
         else:
             t = ("tpl", env.from_string(source(name)))
         CACHE[ck] = t
@@ -491,6 +494,10 @@ def conditions(tier, seed):
                             bounds=f"skeleton {source(name)!r}: every subset of the {n} (arity, operator) pairs {rel} intercepted, all other "
                                    "operators jointly on/off, operands a, b, c arbitrary ints"))
         for g in range(len(GROUPS)):
+            if th or (g + seed) % 2 == 0:
+                out.append(Cond(f"cfg_ok[group{g}{suffix},tree parsed by a plain Environment]", "cfg_ok", mode="B", param={"group": g, "asyncm": asyncm, "base": base, "foreign": True},
+                                timeout=300 if th else 90, witnesses=[[False] * 9, [True] * 9, [True, False, True, False, True, False, True, False, True]],
+                                bounds=f"as cfg_ok[group{g}], but the template is handed to the sandbox as a syntax tree produced by Environment().parse"))
             out.append(Cond(f"cfg_ok[group{g}{suffix}]", "cfg_ok", mode="B", param={"group": g, "asyncm": asyncm, "base": base},
                             timeout=300 if th else 90,
                             witnesses=[[False] * 9, [True] * 9, [True, False, True, False, True, False, True, False, True],
